@@ -33,6 +33,7 @@ import (
 
 	"github.com/paulsonkoly/chess-3/board"
 	"github.com/paulsonkoly/chess-3/move"
+	"github.com/paulsonkoly/chess-3/params"
 	"github.com/paulsonkoly/chess-3/search"
 	"github.com/paulsonkoly/chess-3/uci"
 
@@ -42,7 +43,7 @@ import (
 	"verifharness/implutil"
 )
 
-var suite = flag.String("suite", "c06", "c06|c07|c08")
+var suite = flag.String("suite", "c06", "c06|c07|c08|c06spsa (the last one from a binary built with -tags \"verif spsa\")")
 
 // internal: run as a child process of the C08 cross-process experiment (session script on stdin,
 // transcript on stdout)
@@ -509,7 +510,8 @@ type job struct {
 	warmOn   []int // indices of the roots used for the warm-up
 	warmDeep int   // > 0: additionally warmed by a search of the root itself to this depth (budget 20000 nodes)
 	tag      string
-	longest  int // result slot of a deep C07 run: its longest reported variation
+	longest  int      // result slot of a deep C07 run: its longest reported variation
+	pre      []string // operations before the engine is created (the parameter vector of an spsa run)
 }
 
 func (j *job) warmD() int {
@@ -537,7 +539,7 @@ func (j *job) warmUp(s *search.Search, roots []*root) {
 }
 
 func (j *job) ops() []string {
-	ops := []string{fmt.Sprintf("new tt=%d", j.tt)}
+	ops := append(append([]string{}, j.pre...), fmt.Sprintf("new tt=%d", j.tt))
 	for _, w := range j.warmOn {
 		ops = append(ops, fmt.Sprintf("warmup root#%d depth %d nodes %d", w, j.warmD(), j.warmN()))
 	}
@@ -1606,6 +1608,416 @@ func (e *env) c07() {
 }
 
 // ---------------------------------------------------------------------------------------------
+// C06 on the SPSA BUILD (-tags "verif spsa"): the search parameters are variables with declared
+// ranges (params/spsa.go: tunables, params.Set, `setoption name <Param> value N`).  The property
+// quantifies over "the spsa build with in-range parameter values".  Names, defaults and ranges are
+// read from params.UCIOptions() (never hard-coded), so a changed table is seen.
+
+type tunable struct {
+	name          string
+	def, min, max int
+}
+
+var reOption = regexp.MustCompile(`^option name (\S+) type spin default (-?\d+) min (-?\d+) max (-?\d+)$`)
+
+func parseTunables(text string) (ts []tunable, err error) {
+	for _, line := range strings.Split(strings.TrimSpace(text), "\n") {
+		m := reOption.FindStringSubmatch(strings.TrimSpace(line))
+		if m == nil {
+			return ts, fmt.Errorf("unparsable option line %q", line)
+		}
+		t := tunable{name: m[1]}
+		t.def, _ = strconv.Atoi(m[2])
+		t.min, _ = strconv.Atoi(m[3])
+		t.max, _ = strconv.Atoi(m[4])
+		ts = append(ts, t)
+	}
+	return ts, nil
+}
+
+// paramReaders read the exported parameters directly (constants in the default build, variables in
+// the spsa build): the second, table-independent view of what a Set did.  A tunable without a
+// reader is only observed through UCIOptions (counted in the histogram).
+var paramReaders = map[string]func() int{
+	"NMPDiffFactor":    func() int { return int(params.NMPDiffFactor) },
+	"NMPDepthLimit":    func() int { return int(params.NMPDepthLimit) },
+	"NMPInit":          func() int { return int(params.NMPInit) },
+	"RFPDepthLimit":    func() int { return int(params.RFPDepthLimit) },
+	"RFPScoreFactor":   func() int { return int(params.RFPScoreFactor) },
+	"WindowSize":       func() int { return int(params.WindowSize) },
+	"LMRStart":         func() int { return int(params.LMRStart) },
+	"StandPatDelta":    func() int { return int(params.StandPatDelta) },
+	"HistBonusMul":     func() int { return int(params.HistBonusMul) },
+	"HistBonusLin":     func() int { return int(params.HistBonusLin) },
+	"HistAdjRange":     func() int { return int(params.HistAdjRange) },
+	"HistAdjReduction": func() int { return int(params.HistAdjReduction) },
+	"IIRDepthLimit":    func() int { return int(params.IIRDepthLimit) },
+}
+
+// paramState is the current value of every tunable, seen through UCIOptions ("u:") and directly ("v:").
+func paramState() map[string]int {
+	st := map[string]int{}
+	if ts, err := parseTunables(params.UCIOptions()); err == nil {
+		for _, t := range ts {
+			st["u:"+t.name] = t.def
+		}
+	}
+	for n, f := range paramReaders {
+		st["v:"+n] = f()
+	}
+	return st
+}
+
+type paramVector struct {
+	kind string
+	vals []int // by index of the tunables
+}
+
+func vectorOps(ts []tunable, v paramVector) []string {
+	var ops []string
+	for i, t := range ts {
+		if v.vals[i] != t.def {
+			ops = append(ops, fmt.Sprintf("setoption name %s value %d", t.name, v.vals[i]))
+		}
+	}
+	if len(ops) == 0 {
+		ops = []string{"(all parameters at their defaults)"}
+	}
+	return append([]string{"build -tags spsa"}, ops...)
+}
+
+func (e *env) c06spsa() {
+	e.r.Rule = "spsa build (-tags \"verif spsa\"); tunables (name, default, min, max) read from params.UCIOptions(); (1) for each name and v in {min, max, a third in-range value}: params.Set(name, v) succeeds and changes exactly THAT parameter as seen through UCIOptions and through the exported variable, Set(name, min-1) / Set(name, max+1) / Set(unknown) are rejected and change nothing; (2) parameter vectors: all defaults, all at min, all at max, each parameter alone at its min and at its max, random in-range vectors; for each vector a slice of the C06 assertions on the real search under recover(): roots of several classes (ordinary, in check, single reply, checkmate, stalemate, drawn by clock / repetition, near-draw clocks), depth limits 1..6 (one deeper search of depth 8..11 per rich root), hard node budgets over a sweep, fresh and warmed engines, a second search on the same engine: no panic, move null or legal by the implementation and by the Lean rule book, null only on a final root, board unchanged (deep snapshot), node counter <= budget; (3) UCI sessions on the real uci.Driver in a child process of this binary: `uci` lists the same tunables with the same defaults, `setoption name … value …` for a vector, `position`, `go depth d`: a legal bestmove (or 0000 on a final root) and the engine process alive; the defaults are restored at the end. non-trivial = search under a non-default vector that was cut short by its budget or whose root is final / in check / single-reply; distinct by (vector, root, limits)"
+	text := params.UCIOptions()
+	ts, perr := parseTunables(text)
+	spsa := text != "" && perr == nil && len(ts) > 0
+	if spsa {
+		// a Set round trip must change the value
+		t := ts[0]
+		other := t.min
+		if other == t.def {
+			other = t.max
+		}
+		params.Set(t.name, other)
+		if ts2, err := parseTunables(params.UCIOptions()); err != nil || ts2[0].def != other {
+			if f, ok := paramReaders[t.name]; !ok || f() != other {
+				spsa = false
+			}
+		}
+		params.Set(t.name, t.def)
+	}
+	if !spsa {
+		note := "not an spsa build: params.UCIOptions() is empty or a Set round trip does not change the value (build the harness with -tags \"verif spsa\")"
+		if perr != nil {
+			note += "; " + perr.Error()
+		}
+		e.r.Fail(common.Mismatch{Property: "C06", Kind: "broken-correspondence", Ops: []string{"params.UCIOptions()"}, Impl: text, Note: note})
+		return
+	}
+	restore := func() {
+		for _, t := range ts {
+			params.Set(t.name, t.def)
+		}
+	}
+	defer func() {
+		// ALWAYS back to the defaults; a row that cannot be restored through Set is reported
+		restore()
+		if after := params.UCIOptions(); after != text {
+			e.r.Fail(common.Mismatch{Property: "C06", Kind: "broken-correspondence", Ops: []string{"params.Set(name, default) for every tunable"}, Impl: after, Spec: text,
+				Note: "the parameters are not back at their defaults after setting every tunable to its default"})
+		}
+	}()
+	rng := e.c.Rng
+	e.r.Count("tunables", len(ts))
+	for _, t := range ts {
+		if _, ok := paramReaders[t.name]; !ok {
+			e.r.Count("tunables-without-a-direct-reader", 1)
+			e.r.Notes = append(e.r.Notes, "tunable "+t.name+" is unknown to the harness: observed through UCIOptions only")
+		}
+		if t.def < t.min || t.def > t.max {
+			e.r.Fail(common.Mismatch{Property: "C06", Kind: "broken-correspondence", Ops: []string{"params.UCIOptions()"}, Impl: fmt.Sprintf("%+v", t), Note: "default outside the declared range"})
+		}
+	}
+	for n := range paramReaders {
+		found := false
+		for _, t := range ts {
+			found = found || t.name == n
+		}
+		if !found {
+			e.r.Fail(common.Mismatch{Property: "C06", Kind: "broken-correspondence", Ops: []string{"params.UCIOptions()"}, Impl: text, Note: "exported search parameter " + n + " has no row in the tunables table"})
+		}
+	}
+
+	// (1) Set changes exactly the named parameter, and rejects out-of-range values
+	diffState := func(a, b map[string]int) (out []string) {
+		for k, v := range b {
+			if a[k] != v {
+				out = append(out, fmt.Sprintf("%s:%d->%d", k, a[k], v))
+			}
+		}
+		sort.Strings(out)
+		return
+	}
+	for _, t := range ts {
+		vals := []int{t.min, t.max}
+		if t.max-t.min >= 2 {
+			vals = append(vals, t.min+1+rng.IntN(t.max-t.min-1))
+		}
+		for _, v := range vals {
+			restore()
+			before := paramState()
+			err := params.Set(t.name, v)
+			after := paramState()
+			e.r.Evaluations++
+			e.r.Count("set-checks:in-range", 1)
+			want := []string{}
+			if v != t.def {
+				want = append(want, fmt.Sprintf("u:%s:%d->%d", t.name, t.def, v))
+				if _, ok := paramReaders[t.name]; ok {
+					want = append(want, fmt.Sprintf("v:%s:%d->%d", t.name, t.def, v))
+				}
+			}
+			sort.Strings(want)
+			if got := diffState(before, after); err != nil || strings.Join(got, " ") != strings.Join(want, " ") {
+				e.r.Fail(common.Mismatch{Property: "C06", Kind: "broken-correspondence", Ops: []string{"build -tags spsa", fmt.Sprintf("setoption name %s value %d", t.name, v)},
+					Impl: fmt.Sprintf("err=%v changed: %s", err, strings.Join(got, " ")), Spec: "changed: " + strings.Join(want, " "),
+					Note: "params.Set with an in-range value does not change exactly the named parameter (u: value listed by UCIOptions, v: exported variable)"})
+				e.r.Count("FAILED:set-check", 1)
+			}
+		}
+		for _, v := range []int{t.min - 1, t.max + 1, t.min - 1000, t.max + 1000} {
+			restore()
+			before := paramState()
+			err := params.Set(t.name, v)
+			e.r.Evaluations++
+			e.r.Count("set-checks:out-of-range", 1)
+			if got := diffState(before, paramState()); err == nil || len(got) > 0 {
+				e.r.Fail(common.Mismatch{Property: "C06", Kind: "broken-correspondence", Ops: []string{"build -tags spsa", fmt.Sprintf("setoption name %s value %d", t.name, v)},
+					Impl: fmt.Sprintf("err=%v changed: %s", err, strings.Join(got, " ")), Spec: fmt.Sprintf("rejected (range %d..%d), nothing changed", t.min, t.max),
+					Note: "params.Set accepts an out-of-range value"})
+				e.r.Count("FAILED:set-check", 1)
+			}
+		}
+	}
+	restore()
+	if before := paramState(); params.Set("NoSuchParameter", 1) == nil || len(diffState(before, paramState())) > 0 {
+		e.r.Fail(common.Mismatch{Property: "C06", Kind: "broken-correspondence", Ops: []string{"setoption name NoSuchParameter value 1"}, Note: "params.Set accepts an unknown name"})
+	}
+
+	// (2) parameter vectors
+	mk := func(kind string, f func(i int, t tunable) int) paramVector {
+		v := paramVector{kind: kind, vals: make([]int, len(ts))}
+		for i, t := range ts {
+			v.vals[i] = f(i, t)
+		}
+		return v
+	}
+	vectors := []paramVector{
+		mk("all-default", func(_ int, t tunable) int { return t.def }),
+		mk("all-min", func(_ int, t tunable) int { return t.min }),
+		mk("all-max", func(_ int, t tunable) int { return t.max }),
+	}
+	for k := range ts {
+		vectors = append(vectors,
+			mk("one-at-min", func(i int, t tunable) int {
+				if i == k {
+					return t.min
+				}
+				return t.def
+			}),
+			mk("one-at-max", func(i int, t tunable) int {
+				if i == k {
+					return t.max
+				}
+				return t.def
+			}))
+	}
+	for i := e.c.Pick(24, 300); i > 0; i-- {
+		edge := rng.IntN(3) == 0 // a third of the random vectors sit on the edges of the ranges
+		vectors = append(vectors, mk("random", func(_ int, t tunable) int {
+			if edge {
+				return []int{t.min, t.max, t.def}[rng.IntN(3)]
+			}
+			return t.min + rng.IntN(t.max-t.min+1)
+		}))
+	}
+	e.collectRoots(e.c.Pick(36, 60))
+	e.rootHistogram()
+	// roots by class: the rich ones reach every pruning rule, the others are the corner cases
+	var rich, corner []*root
+	for _, rt := range e.roots {
+		switch {
+		case !rt.final && !rt.inCheck && len(rt.legal) >= 20:
+			rich = append(rich, rt)
+		default:
+			corner = append(corner, rt)
+		}
+	}
+	budgets := []int{0, 1, 2, 3, 5, 9, 17, 40, 100, 300, 1000, 3000}
+	for vi, v := range vectors {
+		restore()
+		pre := vectorOps(ts, v)
+		okSet := true
+		for i, t := range ts {
+			if err := params.Set(t.name, v.vals[i]); err != nil {
+				okSet = false
+				e.r.Fail(common.Mismatch{Property: "C06", Kind: "broken-correspondence", Ops: pre, Impl: err.Error(), Note: fmt.Sprintf("params.Set(%s, %d) rejects an in-range value", t.name, v.vals[i])})
+			}
+		}
+		if !okSet {
+			continue
+		}
+		var jobs []*job
+		add := func(rt *root, l limits, warm bool) {
+			j := &job{rt: rt, l: l, tt: ttSizes[rng.IntN(3)], tag: "spsa", pre: pre}
+			if warm {
+				j.warmOn = []int{rng.IntN(len(e.roots))}
+			}
+			jobs = append(jobs, j)
+		}
+		// three rich roots: every depth 1..6 (7 on one), and the budget sweep
+		for k := 0; k < 3 && len(rich) > 0; k++ {
+			rt := rich[(vi*3+k)%len(rich)]
+			for d := 1; d <= 6+k/2; d++ {
+				add(rt, limits{depth: d, nodes: e.c.Pick(150000, 400000)}, d%3 == 0)
+			}
+			// and one deeper search, where every pruning rule and reduction is in full use
+			add(rt, limits{depth: 8 + rng.IntN(4), nodes: e.c.Pick(100000, 400000)}, k == 1)
+			for _, n := range budgets {
+				add(rt, limits{depth: 1 + rng.IntN(6), nodes: n}, rng.IntN(4) == 0)
+			}
+		}
+		// ten corner-case roots: a depth-limited search, a budget, a soft limit
+		for k := 0; k < 10 && len(corner) > 0; k++ {
+			rt := corner[(vi*10+k)%len(corner)]
+			add(rt, limits{depth: 1 + rng.IntN(6), nodes: e.c.Pick(30000, 100000)}, k%2 == 0)
+			add(rt, limits{depth: 1 + rng.IntN(6), nodes: budgets[rng.IntN(len(budgets))]}, false)
+			add(rt, limits{depth: 2 + rng.IntN(3), nodes: -1, soft: 1 + rng.IntN(500)}, false)
+		}
+		before := len(e.r.Mismatches)
+		var evals atomic.Int64
+		parallel(len(jobs), func(i int) { evals.Add(int64(e.runJob(jobs[i], e.roots))) })
+		e.r.Evaluations += int(evals.Load())
+		e.r.Count("vectors", 1)
+		e.r.Count("vectors:"+v.kind, 1)
+		e.r.Count("searches-under-a-vector", int(evals.Load()))
+		if len(e.r.Mismatches) > before {
+			e.r.Count("FAILED:vector:"+v.kind, 1)
+		}
+		for _, j := range jobs {
+			if v.kind != "all-default" && (j.l.nodes >= 0 && j.l.nodes <= 3000 || j.rt.final || j.rt.inCheck || len(j.rt.legal) == 1) {
+				e.r.Nontrivial(strings.Join(j.ops(), "|"))
+			}
+		}
+		if vi == 1 {
+			e.r.Sample(map[string]any{"vector": pre, "run": jobs[0].ops()}, 3)
+		}
+	}
+	restore()
+
+	// (3) UCI sessions in a child process of this (spsa) binary
+	type us struct {
+		v     paramVector
+		fails []common.Mismatch
+		evals int
+	}
+	var sess []*us
+	for _, k := range []int{1, 2} { // all-min, all-max
+		sess = append(sess, &us{v: vectors[k]})
+	}
+	for i := e.c.Pick(4, 24); i > 0; i-- {
+		sess = append(sess, &us{v: vectors[3+rng.IntN(len(vectors)-3)]})
+	}
+	type step struct {
+		rt  *root
+		cmd string
+	}
+	scripts := make([][]step, len(sess))
+	for i := range sess {
+		for k := 0; k < 4; k++ {
+			rt := e.roots[rng.IntN(len(e.roots))]
+			if k < 2 && len(rich) > 0 {
+				rt = rich[rng.IntN(len(rich))]
+			}
+			scripts[i] = append(scripts[i], step{rt, fmt.Sprintf("go depth %d", 2+rng.IntN(4))})
+		}
+	}
+	parallel(len(sess), func(i int) {
+		u := sess[i]
+		p := newProcSession()
+		defer p.close()
+		ops := []string{"engine process built with -tags spsa", "uci"}
+		fail := func(impl, spec, note string) {
+			u.fails = append(u.fails, common.Mismatch{Property: "C06", Kind: "failing-input", Ops: append([]string{}, ops...), Impl: impl, Spec: spec, Note: note})
+		}
+		p.send("uci")
+		lines, ok := p.waitLine("uciok", 30*time.Second)
+		if !ok {
+			fail("no uciok; stderr: "+p.errb.String(), "", "the engine process does not answer `uci`")
+			return
+		}
+		var listed []string
+		for _, l := range lines {
+			if m := reOption.FindStringSubmatch(l); m != nil {
+				if _, known := map[string]bool{"Hash": true, "Threads": true}[m[1]]; !known {
+					listed = append(listed, l)
+				}
+			}
+		}
+		if got := strings.Join(listed, "\n") + "\n"; got != text {
+			u.fails = append(u.fails, common.Mismatch{Property: "C06", Kind: "broken-correspondence", Ops: ops, Impl: got, Spec: text,
+				Note: "the tunables listed by a new engine process differ from params.UCIOptions() at the start of this process"})
+		}
+		for k, t := range ts {
+			if u.v.vals[k] != t.def {
+				c := fmt.Sprintf("setoption name %s value %d", t.name, u.v.vals[k])
+				ops = append(ops, c)
+				p.send(c)
+			}
+		}
+		for _, st := range scripts[i] {
+			ops = append(ops, st.rt.position(), st.cmd)
+			p.send(st.rt.position())
+			p.send(st.cmd)
+			_, best, ok := p.waitBest(60 * time.Second)
+			u.evals++
+			if !ok {
+				time.Sleep(50 * time.Millisecond)
+				eb := p.errb.String()
+				if len(eb) > 500 {
+					eb = eb[:500]
+				}
+				fail("no bestmove (engine process ended or silent for 60 s); stderr: "+eb, "a legal bestmove", "search crashed: the engine process did not answer `go` under in-range parameter values")
+				return
+			}
+			f := strings.Fields(best)
+			okMove := len(f) >= 2 && f[1] == "0000" && st.rt.final
+			if len(f) >= 2 && f[1] != "0000" {
+				if m, okw := moveWord(f[1]); okw && contains(st.rt.legal, m) && contains(st.rt.spec, m) {
+					okMove = true
+				}
+			}
+			if !okMove {
+				fail(best, "legal="+movesUCI(st.rt.spec), "UCI answer is neither a legal move nor the null move on a final root")
+			}
+		}
+	})
+	for _, u := range sess {
+		e.r.Evaluations += u.evals
+		e.r.TracesValidated++
+		e.r.Count("uci-sessions", 1)
+		e.r.Count("uci-sessions:"+u.v.kind, 1)
+		e.r.Count("uci-sessions:searches", u.evals)
+		for _, f := range u.fails {
+			e.r.Fail(f)
+		}
+		if len(u.fails) > 0 {
+			e.r.Count("FAILED:uci-session:"+u.v.kind, 1)
+		}
+	}
+}
+
+// ---------------------------------------------------------------------------------------------
 // C07 through the REAL uci.Driver: roots given as text (`position fen F moves …` / `position
 // startpos moves …`) with move lists that contain promotions to all four pieces (both colours,
 // pushes and captures), castling and en-passant captures, then `go depth d` / `go nodes n`.
@@ -1823,6 +2235,26 @@ func (p *procSession) waitBest(timeout time.Duration) (lines []string, best stri
 			lines = append(lines, l)
 		case <-t.C:
 			return lines, "", false
+		}
+	}
+}
+
+// waitLine collects the output up to a line that starts with prefix.
+func (p *procSession) waitLine(prefix string, timeout time.Duration) (lines []string, ok bool) {
+	t := time.NewTimer(timeout)
+	defer t.Stop()
+	for {
+		select {
+		case l, open := <-p.lines:
+			if !open {
+				return lines, false
+			}
+			if strings.HasPrefix(l, prefix) {
+				return lines, true
+			}
+			lines = append(lines, l)
+		case <-t.C:
+			return lines, false
 		}
 	}
 }
@@ -4628,6 +5060,9 @@ func main() {
 	case "c08":
 		e.r = common.NewResult(c, "search/c08", "C08")
 		e.c08()
+	case "c06spsa":
+		e.r = common.NewResult(c, "search/c06spsa", "C06")
+		e.c06spsa()
 	default:
 		panic("unknown suite " + *suite)
 	}
